@@ -1,0 +1,231 @@
+//go:build verif
+
+package meta
+
+// Verification hooks (build tag "verif" only): apply protobuf-encoded commands to a bare
+// store through the real storeFSM, and build such commands outside this package.
+
+import (
+	"bytes"
+	"fmt"
+	"io"
+
+	"github.com/gogo/protobuf/proto"
+	"github.com/hashicorp/raft"
+	internal "github.com/influxdata/influxdb/services/meta/internal"
+)
+
+// VerifFSM wraps a store that has no raft state behind it.
+type VerifFSM struct{ s *store }
+
+func VerifNewFSM(retentionAutoCreate bool) *VerifFSM {
+	c := NewConfig()
+	c.RetentionAutoCreate = retentionAutoCreate
+	s := newStore(c, "", "")
+	s.data = &Data{}
+	return &VerifFSM{s: s}
+}
+
+// Apply runs storeFSM.Apply on one log entry; a panic is returned as text.
+func (f *VerifFSM) Apply(b []byte, index, term uint64) (res interface{}, panicked string) {
+	defer func() {
+		if r := recover(); r != nil {
+			panicked = fmt.Sprint(r)
+		}
+	}()
+	res = (*storeFSM)(f.s).Apply(&raft.Log{Data: b, Index: index, Term: term})
+	return res, ""
+}
+
+func (f *VerifFSM) Data() *Data     { return f.s.data }
+func (f *VerifFSM) SetData(d *Data) { f.s.data = d }
+
+type verifSink struct{ bytes.Buffer }
+
+func (s *verifSink) ID() string    { return "verif" }
+func (s *verifSink) Cancel() error { return nil }
+func (s *verifSink) Close() error  { return nil }
+
+// SnapshotBytes takes an FSM snapshot and persists it, as raft would.
+func (f *VerifFSM) SnapshotBytes() ([]byte, raft.FSMSnapshot, error) {
+	snap, err := (*storeFSM)(f.s).Snapshot()
+	if err != nil {
+		return nil, nil, err
+	}
+	var sink verifSink
+	if err := snap.Persist(&sink); err != nil {
+		return nil, snap, err
+	}
+	return sink.Bytes(), snap, nil
+}
+
+// PersistSnapshot persists an earlier snapshot object again (point-in-time check).
+func VerifPersist(snap raft.FSMSnapshot) ([]byte, error) {
+	var sink verifSink
+	if err := snap.Persist(&sink); err != nil {
+		return nil, err
+	}
+	return sink.Bytes(), nil
+}
+
+func (f *VerifFSM) Restore(b []byte) error {
+	return (*storeFSM)(f.s).Restore(io.NopCloser(bytes.NewReader(b)))
+}
+
+func VerifValidateCommand(b []byte) error { return validateCommand(b) }
+
+// VerifCommandTypes lists the command type numbers known to the protobuf schema.
+func VerifCommandTypes() map[int32]string {
+	out := map[int32]string{}
+	for k, v := range internal.Command_Type_name {
+		out[k] = v
+	}
+	return out
+}
+
+// VerifRawCommand builds a command with the given type number and, optionally, the
+// extension that belongs to another type (ext = 0: no extension at all).
+func VerifRawCommand(typ int32, ext int32) []byte {
+	t := internal.Command_Type(typ)
+	cmd := &internal.Command{Type: &t}
+	switch internal.Command_Type(ext) {
+	case internal.Command_CreateDatabaseCommand:
+		proto.SetExtension(cmd, internal.E_CreateDatabaseCommand_Command, &internal.CreateDatabaseCommand{Name: proto.String("x")})
+	case internal.Command_DropDatabaseCommand:
+		proto.SetExtension(cmd, internal.E_DropDatabaseCommand_Command, &internal.DropDatabaseCommand{Name: proto.String("x")})
+	case internal.Command_CreateUserCommand:
+		proto.SetExtension(cmd, internal.E_CreateUserCommand_Command, &internal.CreateUserCommand{Name: proto.String("u"), Hash: proto.String("h"), Admin: proto.Bool(false)})
+	case internal.Command_PruneShardGroupsCommand:
+		proto.SetExtension(cmd, internal.E_PruneShardGroupsCommand_Command, &internal.PruneShardGroupsCommand{})
+	}
+	b, _ := proto.Marshal(cmd)
+	return b
+}
+
+func verifMarshal(typ internal.Command_Type, desc *proto.ExtensionDesc, value interface{}) []byte {
+	cmd := &internal.Command{Type: &typ}
+	if err := proto.SetExtension(cmd, desc, value); err != nil {
+		panic(err)
+	}
+	b, err := proto.Marshal(cmd)
+	if err != nil {
+		panic(err)
+	}
+	return b
+}
+
+func VerifCmdCreateDatabase(name string) []byte {
+	return verifMarshal(internal.Command_CreateDatabaseCommand, internal.E_CreateDatabaseCommand_Command,
+		&internal.CreateDatabaseCommand{Name: proto.String(name)})
+}
+func VerifCmdCreateDatabaseWithRP(name, rp string, replicaN uint32, dur, sgd int64) []byte {
+	return verifMarshal(internal.Command_CreateDatabaseCommand, internal.E_CreateDatabaseCommand_Command,
+		&internal.CreateDatabaseCommand{Name: proto.String(name), RetentionPolicy: &internal.RetentionPolicyInfo{
+			Name: proto.String(rp), ReplicaN: proto.Uint32(replicaN), Duration: proto.Int64(dur), ShardGroupDuration: proto.Int64(sgd)}})
+}
+func VerifCmdDropDatabase(name string) []byte {
+	return verifMarshal(internal.Command_DropDatabaseCommand, internal.E_DropDatabaseCommand_Command,
+		&internal.DropDatabaseCommand{Name: proto.String(name)})
+}
+func VerifCmdCreateRP(db, name string, replicaN uint32, dur, sgd int64, dflt bool) []byte {
+	return verifMarshal(internal.Command_CreateRetentionPolicyCommand, internal.E_CreateRetentionPolicyCommand_Command,
+		&internal.CreateRetentionPolicyCommand{Database: proto.String(db), Default: proto.Bool(dflt), RetentionPolicy: &internal.RetentionPolicyInfo{
+			Name: proto.String(name), ReplicaN: proto.Uint32(replicaN), Duration: proto.Int64(dur), ShardGroupDuration: proto.Int64(sgd)}})
+}
+func VerifCmdDropRP(db, name string) []byte {
+	return verifMarshal(internal.Command_DropRetentionPolicyCommand, internal.E_DropRetentionPolicyCommand_Command,
+		&internal.DropRetentionPolicyCommand{Database: proto.String(db), Name: proto.String(name)})
+}
+func VerifCmdUpdateRP(db, name string, newName *string, dur *int64, replicaN *uint32, sgd *int64, dflt bool) []byte {
+	return verifMarshal(internal.Command_UpdateRetentionPolicyCommand, internal.E_UpdateRetentionPolicyCommand_Command,
+		&internal.UpdateRetentionPolicyCommand{Database: proto.String(db), Name: proto.String(name), NewName: newName,
+			Duration: dur, ReplicaN: replicaN, ShardGroupDuration: sgd, Default: proto.Bool(dflt)})
+}
+func VerifCmdCreateShardGroup(db, rp string, ts int64) []byte {
+	return verifMarshal(internal.Command_CreateShardGroupCommand, internal.E_CreateShardGroupCommand_Command,
+		&internal.CreateShardGroupCommand{Database: proto.String(db), Policy: proto.String(rp), Timestamp: proto.Int64(ts)})
+}
+func VerifCmdDeleteShardGroup(db, rp string, id uint64) []byte {
+	return verifMarshal(internal.Command_DeleteShardGroupCommand, internal.E_DeleteShardGroupCommand_Command,
+		&internal.DeleteShardGroupCommand{Database: proto.String(db), Policy: proto.String(rp), ShardGroupID: proto.Uint64(id)})
+}
+func VerifCmdTruncate(ts int64) []byte {
+	return verifMarshal(internal.Command_TruncateShardGroupsCommand, internal.E_TruncateShardGroupsCommand_Command,
+		&internal.TruncateShardGroupsCommand{Timestamp: proto.Int64(ts)})
+}
+func VerifCmdPrune() []byte {
+	return verifMarshal(internal.Command_PruneShardGroupsCommand, internal.E_PruneShardGroupsCommand_Command,
+		&internal.PruneShardGroupsCommand{})
+}
+func VerifCmdDropShard(id uint64) []byte {
+	return verifMarshal(internal.Command_DropShardCommand, internal.E_DropShardCommand_Command,
+		&internal.DropShardCommand{ID: proto.Uint64(id)})
+}
+func VerifCmdCopyShardOwner(id, node uint64) []byte {
+	return verifMarshal(internal.Command_CopyShardOwnerCommand, internal.E_CopyShardOwnerCommand_Command,
+		&internal.CopyShardOwnerCommand{ID: proto.Uint64(id), NodeID: proto.Uint64(node)})
+}
+func VerifCmdRemoveShardOwner(id, node uint64) []byte {
+	return verifMarshal(internal.Command_RemoveShardOwnerCommand, internal.E_RemoveShardOwnerCommand_Command,
+		&internal.RemoveShardOwnerCommand{ID: proto.Uint64(id), NodeID: proto.Uint64(node)})
+}
+func VerifCmdCreateDataNode(httpAddr, tcpAddr string) []byte {
+	return verifMarshal(internal.Command_CreateDataNodeCommand, internal.E_CreateDataNodeCommand_Command,
+		&internal.CreateDataNodeCommand{HTTPAddr: proto.String(httpAddr), TCPAddr: proto.String(tcpAddr)})
+}
+func VerifCmdDeleteDataNode(id uint64) []byte {
+	return verifMarshal(internal.Command_DeleteDataNodeCommand, internal.E_DeleteDataNodeCommand_Command,
+		&internal.DeleteDataNodeCommand{ID: proto.Uint64(id)})
+}
+func VerifCmdUpdateDataNode(id uint64, httpAddr, tcpAddr string) []byte {
+	return verifMarshal(internal.Command_UpdateDataNodeCommand, internal.E_UpdateDataNodeCommand_Command,
+		&internal.UpdateDataNodeCommand{ID: proto.Uint64(id), HTTPAddr: proto.String(httpAddr), TCPAddr: proto.String(tcpAddr)})
+}
+func VerifCmdCreateMetaNode(httpAddr, tcpAddr string, rand uint64) []byte {
+	return verifMarshal(internal.Command_CreateMetaNodeCommand, internal.E_CreateMetaNodeCommand_Command,
+		&internal.CreateMetaNodeCommand{HTTPAddr: proto.String(httpAddr), TCPAddr: proto.String(tcpAddr), Rand: proto.Uint64(rand)})
+}
+func VerifCmdDeleteMetaNode(id uint64) []byte {
+	return verifMarshal(internal.Command_DeleteMetaNodeCommand, internal.E_DeleteMetaNodeCommand_Command,
+		&internal.DeleteMetaNodeCommand{ID: proto.Uint64(id)})
+}
+func VerifCmdSetMetaNode(httpAddr, tcpAddr string, rand uint64) []byte {
+	return verifMarshal(internal.Command_SetMetaNodeCommand, internal.E_SetMetaNodeCommand_Command,
+		&internal.SetMetaNodeCommand{HTTPAddr: proto.String(httpAddr), TCPAddr: proto.String(tcpAddr), Rand: proto.Uint64(rand)})
+}
+func VerifCmdCreateUser(name, hash string, admin bool) []byte {
+	return verifMarshal(internal.Command_CreateUserCommand, internal.E_CreateUserCommand_Command,
+		&internal.CreateUserCommand{Name: proto.String(name), Hash: proto.String(hash), Admin: proto.Bool(admin)})
+}
+func VerifCmdDropUser(name string) []byte {
+	return verifMarshal(internal.Command_DropUserCommand, internal.E_DropUserCommand_Command,
+		&internal.DropUserCommand{Name: proto.String(name)})
+}
+func VerifCmdUpdateUser(name, hash string) []byte {
+	return verifMarshal(internal.Command_UpdateUserCommand, internal.E_UpdateUserCommand_Command,
+		&internal.UpdateUserCommand{Name: proto.String(name), Hash: proto.String(hash)})
+}
+func VerifCmdSetPrivilege(user, db string, p int32) []byte {
+	return verifMarshal(internal.Command_SetPrivilegeCommand, internal.E_SetPrivilegeCommand_Command,
+		&internal.SetPrivilegeCommand{Username: proto.String(user), Database: proto.String(db), Privilege: proto.Int32(p)})
+}
+func VerifCmdSetAdmin(user string, admin bool) []byte {
+	return verifMarshal(internal.Command_SetAdminPrivilegeCommand, internal.E_SetAdminPrivilegeCommand_Command,
+		&internal.SetAdminPrivilegeCommand{Username: proto.String(user), Admin: proto.Bool(admin)})
+}
+func VerifCmdCreateCQ(db, name, query string) []byte {
+	return verifMarshal(internal.Command_CreateContinuousQueryCommand, internal.E_CreateContinuousQueryCommand_Command,
+		&internal.CreateContinuousQueryCommand{Database: proto.String(db), Name: proto.String(name), Query: proto.String(query)})
+}
+func VerifCmdDropCQ(db, name string) []byte {
+	return verifMarshal(internal.Command_DropContinuousQueryCommand, internal.E_DropContinuousQueryCommand_Command,
+		&internal.DropContinuousQueryCommand{Database: proto.String(db), Name: proto.String(name)})
+}
+func VerifCmdCreateSubscription(db, rp, name, mode string, dests []string) []byte {
+	return verifMarshal(internal.Command_CreateSubscriptionCommand, internal.E_CreateSubscriptionCommand_Command,
+		&internal.CreateSubscriptionCommand{Database: proto.String(db), RetentionPolicy: proto.String(rp), Name: proto.String(name), Mode: proto.String(mode), Destinations: dests})
+}
+func VerifCmdDropSubscription(db, rp, name string) []byte {
+	return verifMarshal(internal.Command_DropSubscriptionCommand, internal.E_DropSubscriptionCommand_Command,
+		&internal.DropSubscriptionCommand{Database: proto.String(db), RetentionPolicy: proto.String(rp), Name: proto.String(name)})
+}
